@@ -136,10 +136,20 @@ class Machine:
         return rng.choice(c) if c else None
 
     def _shape(self, rng, rows=None):
-        rows = rng.choice((0, 1, 2, 3, 4, 5, 6, 8)) if rows is None else rows
+        if rows is None:
+            r = rng.random()
+            if r < 0.90:
+                rows = rng.choice((0, 1, 2, 3, 4, 5, 6, 8))
+            elif r < 0.985:
+                rows = rng.choice((12, 17, 30, 40))
+            else:
+                rows = rng.choice((257, 300))  # row ids beyond one byte
         if rng.random() < 0.45:
             return (rows,)
-        return (rows, rng.choice((1, 2, 2, 3, 3, 0 if rng.random() < 0.1 else 2)))
+        cols = rng.choice((1, 2, 2, 3, 3, 0 if rng.random() < 0.1 else 2))
+        if rng.random() < 0.04:
+            cols = rng.choice((4, 5, 9))
+        return (rows, cols)
 
     def gen_new(self, rng, palette, shape=None):
         shape = shape or self._shape(rng)
